@@ -269,7 +269,7 @@ class C03(Check):
         from pox.lib.addresses import IPAddr, EthAddr
         self.of, self.FlowTable, self.TableEntry, self.SoftwareSwitch, self.pkt = of, FlowTable, TableEntry, SoftwareSwitch, pkt
         self.IPAddr, self.EthAddr = IPAddr, EthAddr
-        self._corpus = None
+        self._corpus = None; self._byte_frames = None
         self.anchors = self.compute_anchors()
         self.variant = self.detect_variant()
 
@@ -946,7 +946,25 @@ class C03(Check):
         """returns hex of a frame.  clean=True: no ECN bits, ARP opcode <= 255 (the inputs of open findings are generated separately)"""
         P, IP, Eth = self.pkt, self.IPAddr, self.EthAddr
         kind = kind or rng.choice(["tcp", "udp", "icmp", "ipother", "arp", "vlan_ip", "vlan_arp", "llc", "snap_ip", "snap_other", "snap_oui",
-                                   "other", "frag_first", "frag_later", "ipopts", "trunc_l3", "trunc_l4", "qinq", "snap_vlan", "ipv6"])
+                                   "other", "frag_first", "frag_later", "ipopts", "trunc_l3", "trunc_l4", "qinq", "snap_vlan", "ipv6", "bytes", "bytes_ip", "bytes_ip"])
+        if kind == "bytes":                     # one of the swept byte-level frames
+            if self._byte_frames is None: self._byte_frames = [fr for _, fr in self.byte_frames()]
+            return rng.choice(self._byte_frames)
+        if kind == "bytes_ip":                  # IPv4 with random flag bits / offset / IHL / lengths behind a random encapsulation, built byte by byte
+            proto = rng.choice([6, 17, 1, 1, 6, 17, 47, rng.randint(0, 255)])
+            ihl = rng.choice([5, 5, 5, 6, 15, rng.randint(5, 15)])
+            d = self.raw_ip(proto, rng.randint(0, 7), rng.choice([0, 0, 0, 1, 185, 8191, rng.randint(0, 8191)]), ihl,
+                            tos=rng.choice([0, 0x10, 0xb8]) | (0 if clean else rng.choice([1, 2, 3])), src=rng.choice([0x0a000001, 0xc0a80101, 0]), dst=rng.choice([0x0a000002, 0xffffffff]),
+                            a=rng.choice([0, 8, 80, 4000, 65535]), b=rng.choice([0, 3, 80, 5060, 65535]),
+                            opts=None if rng.random() < 0.6 else bytes(rng.randint(0, 255) for _ in range(4 * (ihl - 5))),
+                            tcpoff=rng.choice([5, 5, 5, 6, 15]), totdelta=rng.choice([0, 0, 0, -2, 4]), pad=b"\0" * rng.choice([0, 0, 6]))
+            w = rng.random()
+            t = 0x0800 if rng.random() < 0.8 else rng.choice(self.ETYPES)
+            src, dst = rng.choice([0x11, 0x020000000001, 0xfefffffffffe]), rng.choice([0x22, 0xffffffffffff])
+            if w < 0.5: return self.raw_eth(t, d, src, dst)
+            if w < 0.75: return self.raw_eth(rng.choice([0x8100, 0x8100, 0x8100, 0x88a8, 0x9100]), self.raw_tag(t, d, rng.choice([0, 5, 4095]), rng.choice([0, 3, 7]), rng.choice([0, 0, 1])), src, dst)
+            if w < 0.9: return self.raw_eth(None, self.raw_llc(d, typ=t, oui=rng.choice([0, 0, 0, 0x0c])), src, dst)
+            return self.raw_eth(None, self.raw_llc(self.raw_tag(t, d), typ=0x8100), src, dst)
         mac = lambda: Eth(bytes([rng.choice([0, 2, 0x12]), 0, 0, 0, rng.randint(0, 2), rng.randint(1, 4)]))
         ipa = lambda: IP("%d.%d.%d.%d" % (rng.choice([10, 10, 192, 172]), rng.choice([0, 1, 9, 168]), rng.choice([0, 1, 9, 255]), rng.randint(1, 4)))
         tosv = lambda: rng.choice([0, 0, 0x10, 0xb8, 0x20]) | (0 if clean else rng.choice([1, 2, 3]))
@@ -1033,6 +1051,7 @@ class C03(Check):
         if (wild(r, DL_TYPE) and r[DL_TYPE] in (0x0800, 0x0806)) or (wild(r, PROTO) and r[DL_TYPE] == 0x0800 and r[PROTO] in (1, 6, 17)): return "prereq"
         if r[TOS] & 3 or (l3 is not None and l3[0] == "ip" and l3[4] & 3): return "tos"
         if l3 is not None and l3[0] == "arp" and l3[1] > 255: return "arp"
+        if self.rarp_as_arp and spec_headers(ph, 0)[DL_TYPE - 1] == 0x8035: return "rarp"
         return None
 
     def batches(self, frame, port, recs, ph, size=64, tag=None):
